@@ -351,3 +351,91 @@ def _per_object(cs, s):
 OBLIGATIONS.append(Ob('guard_asked_per_object', ob_guard_per_object, ['len(s) <= 1'], timeout=tier(250, 900), data='-',
                       selectors='which of three objects of one class are confidential (3 bits): fmt=report on loop items, fmt= / expression / with-lookup on one template object rendered three times; guard refuses per object',
                       stubs='render runs untraced once the bits are fixed on the path'))
+
+
+# ---------------------------------------------------------------- wave 5: the REAL guard mixin (security.RestrictedDTML) and Zope's policy objects
+from AccessControl import Unauthorized as ACUnauthorized      # noqa: E402
+from AccessControl.SecurityManagement import getSecurityManager      # noqa: E402
+from ExtensionClass import Base      # noqa: E402
+from DocumentTemplate.security import RestrictedDTML      # noqa: E402
+
+
+class RT(RestrictedDTML, HTML):
+    def getOwner(self):
+        return None
+
+    def __call__(self, client=None, REQUEST={}, RESPONSE=None, **kw):
+        sm = getSecurityManager()
+        sm.addContext(self)
+        try:
+            return HTML.__call__(self, client, REQUEST, **kw)
+        finally:
+            sm.removeContext(self)
+
+
+class Pub(Base):
+    __roles__ = None
+    __allow_access_to_unprotected_subobjects__ = 1
+
+    def __init__(self, n):
+        self.n = n
+
+    def __str__(self):
+        return 'P%s' % self.n
+
+
+class Priv(Base):
+    __roles__ = ()
+
+    def __init__(self, n):
+        self.n = n
+
+    def __str__(self):
+        return 'SECRET%s' % self.n
+
+
+SRC_RP = {
+    (True, False): '<dtml-in seq skip_unauthorized><dtml-var sequence-item>:<dtml-var sequence-index>:<dtml-var "_[\'sequence-item\']">,</dtml-in>',
+    (True, True): '<dtml-in seq skip_unauthorized size=9><dtml-var sequence-item>:<dtml-var sequence-index>:<dtml-var "_[\'sequence-item\']">,</dtml-in>',
+    (False, False): '<dtml-in seq><dtml-var sequence-item>,</dtml-in>',
+    (False, True): '<dtml-in seq size=9><dtml-var sequence-item>,</dtml-in>',
+}
+
+
+def ob_real_policy_items(p0: bool, p1: bool, p2: bool, ck: int, skip: bool, batch: bool) -> bool:
+    """the guard mixin the package ships (RestrictedDTML) with Zope's policy: elements the policy refuses never reach the output of
+    dtml-in, whatever kind of container delivers them (list, tuple, generator, iterator, map object, dict values view); with
+    skip_unauthorized the others are shown with the sequence variables of their own positions, without it the rendering is refused"""
+    privs = [bool(p0), bool(p1), bool(p2)]
+    kind = 0 if ck <= 0 else 1 if ck == 1 else 2 if ck == 2 else 3 if ck == 3 else 4 if ck == 4 else 5
+    sk, bt = bool(skip), bool(batch)
+    from crosshair.tracers import NoTracing
+    with NoTracing():
+        items = [(Priv(i) if privs[i] else Pub(i)) for i in range(3)]
+        if kind == 0:
+            seq = list(items)
+        elif kind == 1:
+            seq = tuple(items)
+        elif kind == 2:
+            seq = (x for x in items)
+        elif kind == 3:
+            seq = iter(items)
+        elif kind == 4:
+            seq = map(lambda x: x, items)
+        else:
+            seq = dict(enumerate(items)).values()
+        t = RT(SRC_RP[(sk, bt)])
+        try:
+            out = t(seq=seq)
+        except (ACUnauthorized, Unauthorized):
+            return (not sk) and any(privs)
+        if 'SECRET' in out:
+            return False
+        if sk:
+            return out == ''.join('P%d:%d:P%d,' % (i, i, i) for i in range(3) if not privs[i])
+        return not any(privs) and out == 'P0,P1,P2,'
+
+
+OBLIGATIONS.append(Ob('real_policy_items', ob_real_policy_items, ['0 <= ck <= 5'], timeout=tier(200, 600), path_timeout=60, data='-',
+                      selectors='security.RestrictedDTML + AccessControl policy: which of 3 elements are private (__roles__ = ()), container kind list / tuple / generator / iterator / map / dict values, skip_unauthorized or not, batched or not',
+                      stubs='render runs untraced once the selectors are fixed on the path'))
